@@ -678,7 +678,9 @@ func (ch *c20Chain) cohereTx(res *ctypes.ResultTx, path []string) {
 	var tx types.Tx
 	switch {
 	case c20PathEq(path, "tx"):
-		tx = res.Tx
+		ch.nm.regTxs(types.Txs{res.Tx})
+		res.Hash = res.Tx.Hash()
+		return
 	case c20PathEq(path, "proof", "data"):
 		tx = res.Proof.Data
 	default:
